@@ -3,7 +3,7 @@ import ast
 import z3
 from . import fl
 from .fl import SFloat
-from .vals import (SArr, SList, SObj, SFunc, SStr, Unsupported, fresh_int, fresh_bool, fresh_float, fresh_bv, SYMLOG)
+from .vals import (SArr, SList, SObj, SFunc, SStr, Unsupported, fresh_int, fresh_bool, fresh_float, fresh_bv, SYMLOG, sel)
 from .state import (array_write, havoc_cell, coerce_scalar)
 from .expr import (is_int, is_boolv, is_bv, is_float, as_bool, to_int, simp_bool, band, bor, bnot, arith, BINOPS)
 
@@ -228,10 +228,19 @@ class StmtMixin:
             st.log.append(("W", arr.cell, tuple(list(arr.fixed) + norm), list(st.pc) + list(self.guard)))
         if arr.dt == "i" and not self.spec:
             self.int_store_range(arr, v, st, node)
+        if arr.dt == "r" and not self.spec:
+            self.real_store_check(v, st, node)
         array_write(st, arr, norm, v)
 
     def int_store_range(self, arr, v, st, node):
         pass
+
+    def real_store_check(self, v, st, node):
+        """arrays declared r32/r64 hold finite values only: every store proves it"""
+        if isinstance(v, SFloat) and not v.fin:
+            g = fl.isfin(v)
+            self.emit(st, "finite", "L%d" % node.lineno, g, node, "value stored into a finite-real array is finite")
+            st.assume(g)
 
     def array_set_slice(self, arr, idx, v, st, node):
         raise Unsupported("slice assignment (line %d)" % node.lineno)
@@ -264,7 +273,7 @@ class StmtMixin:
             self._cur = st
             if base.dt.startswith("u"):
                 new = arith(op, cur, coerce_scalar(rhs, base.dt), self, s)
-            elif base.dt == "f":
+            elif base.dt in ("f", "r"):
                 new = arith(op, cur, rhs, self, s) if op != "/" else fl.div_array(fl.F(cur), fl.F(rhs) if is_float(rhs) else fl.F(to_int(rhs)))
             else:
                 new = arith(op, cur, rhs, self, s)
@@ -272,6 +281,8 @@ class StmtMixin:
                 self.emit(st, "frame", "L%d" % s.lineno, False, s, "write to %s not in assigns" % base.name)
             if st.log is not None:
                 st.log.append(("W", base.cell, tuple(list(base.fixed) + norm), list(st.pc)))
+            if base.dt == "r":
+                self.real_store_check(new, st, s)
             array_write(st, base, norm, new)
         else:
             raise Unsupported("augassign target (line %d)" % s.lineno)
@@ -532,7 +543,38 @@ class StmtMixin:
             #  do not mention it)
         if self.feasible(ex):
             out.append((ex, NORMAL, None))
+        afters = getattr(self.c, "afters", {}).get(k) if self.c is not None else None
+        if afters:
+            out = self.cut_after_loop(s, k, afters, st, out, names, stores, calls, tname, pats)
         return out
+
+    def cut_after_loop(self, s, k, afters, st, outs, names, stores, calls, tname, pats):
+        """loop summary: prove the after-clauses on every exit path, continue from ONE state that knows only them"""
+        rest = []
+        for (s2, oc, pl) in outs:
+            if oc != NORMAL:
+                rest.append((s2, oc, pl))
+                continue
+            for cl in afters:
+                self.emit(s2, "after", "loop%d.L%d" % (k, cl.lineno), as_bool(self.eval_spec(cl.expr, s2)), s, "loop exit: " + cl.text())
+        m = st.fork()
+        for nm in sorted(set(names) | {tname}):
+            if nm in m.vars:
+                m.vars[nm] = self.havoc_value(nm, m.vars[nm], m)
+            elif nm == tname:
+                m.vars[nm] = fresh_int(nm)
+        called_with = self.arrays_passed_to_assigning_calls(calls, m)
+        for nm in sorted(stores):
+            v = m.vars.get(nm)
+            if isinstance(v, SArr):
+                before = m.heap[v.cell]
+                havoc_cell(m, v, nm)
+                if nm not in called_with:
+                    self.frame_inference(m, st, v, before, pats.get(nm), set(names) | set(stores) | {tname}, "\0none", fresh_int("unused"), 0, 1)
+        self.havoc_for_calls(calls, m)
+        for cl in afters:
+            m.assume(as_bool(self.eval_spec(cl.expr, m)))
+        return rest + [(m, NORMAL, None)]
 
     def arrays_passed_to_assigning_calls(self, calls, st):
         out = set()
@@ -584,13 +626,13 @@ class StmtMixin:
         cond = z3.Or(*conds)
         after = hv.heap[arr.cell]
         if arr.dt == "f":
-            hv.assume(z3.ForAll(q, z3.Implies(cond, z3.Select(after[0], *q) == z3.Select(before[0], *q)),
-                                patterns=[z3.Select(after[0], *q)]))
-            hv.assume(z3.ForAll(q, z3.Implies(cond, z3.Select(after[1], *q) == z3.Select(before[1], *q)),
-                                patterns=[z3.Select(after[1], *q)]))
+            hv.assume(z3.ForAll(q, z3.Implies(cond, sel(after[0], q) == sel(before[0], q)),
+                                patterns=[sel(after[0], q)]))
+            hv.assume(z3.ForAll(q, z3.Implies(cond, sel(after[1], q) == sel(before[1], q)),
+                                patterns=[sel(after[1], q)]))
         else:
-            hv.assume(z3.ForAll(q, z3.Implies(cond, z3.Select(after, *q) == z3.Select(before, *q)),
-                                patterns=[z3.Select(after, *q)]))
+            hv.assume(z3.ForAll(q, z3.Implies(cond, sel(after, q) == sel(before, q)),
+                                patterns=[sel(after, q)]))
 
     def havoc_for_calls(self, calls, st):
         """cells that callee contracts declare as assigned are havocked too"""
